@@ -1,3 +1,4 @@
+import Noodles.Props.C13Seek
 import Noodles.Props.C13More
 import Noodles.Basic.Crc32
 import Noodles.Trunc.Model
